@@ -117,6 +117,24 @@ pub fn exec(f: &[&str]) -> Option<String> {
             let b = crate::ops::exec_fields(&fb);
             if same(op, &b, &a) { Some("ok".into()) } else { Some(format!("MISMATCH text={} jsonb={}", &a[..a.len().min(100)], &b[..b.len().min(100)])) }
         }
+        // D23 (C10): a JSON text `["` + 2 bytes + raw control characters + `"]` long enough to satisfy the object
+        // header that its first four bytes spell is accepted by the BINARY decoder (never run by the checks:
+        // 3.6 GB of input; `jvh run` on the line `bigtext 0` reproduces it by hand)
+        ["bigtext", extra] => {
+            let extra: usize = extra.parse().ok()?;
+            let head = [0x5Bu8, 0x22, 0x20, 0x20];
+            let n = ((head[0] as usize % 32) << 24) | ((head[1] as usize) << 16) | ((head[2] as usize) << 8) | head[3] as usize;
+            let mut t: Vec<u8> = Vec::with_capacity(4 + 8 * n + extra + 2);
+            t.extend_from_slice(&head);
+            for _ in 0..n { t.extend_from_slice(&[0x10, 0, 0, 0]); }
+            for _ in 0..n { t.extend_from_slice(&[0, 0, 0, 0]); }
+            for _ in 0..extra { t.push(b'x'); }
+            t.extend_from_slice(b"\"]");
+            let as_text = jsonb::parse_value(&t).map(|v| matches!(v, jsonb::Value::Array(ref a) if a.len() == 1)).unwrap_or(false);
+            let got = jsonb::from_slice(&t);
+            let misread = matches!(got, Ok(jsonb::Value::Object(_)));
+            Some(format!("len={} valid-json-text-denoting-a-one-string-array={} from_slice-misreads-it-as-binary-object={}", t.len(), as_text, misread))
+        }
         // D21: a valid array of n elements must be sniffed as JSONB by the public functions
         ["sniffbig", n] => {
             let n: usize = n.parse().ok()?;
